@@ -98,3 +98,18 @@ def plain(x):
     if isinstance(x, (list, tuple)):
         return [plain(v) for v in x]
     return x
+
+
+def plain_dict(x):
+    """deep copy of a loaded dict without the __comments__ bookkeeping (positions kept), for layout comparisons"""
+    from mappyfile.ordereddict import CaseInsensitiveOrderedDict as CI
+    if isinstance(x, dict):
+        d = CI(CI)
+        for k, v in x.items():
+            if k == "__comments__":
+                continue
+            d[k] = plain_dict(v)
+        return d
+    if isinstance(x, list):
+        return [plain_dict(v) for v in x]
+    return x
